@@ -153,6 +153,9 @@ def serve_case(res, rng, length, tmp):
             eng.feed(f"77;255;0;0;17;{version}")
             oft, ofv = (ft + 1) % 65536, fv
             oimg = rng.randbytes(rng.choice([40, 128, 500]))
+            if not via_hex and rng.random() < 0.4:
+                oimg = img          # the very same build registered under two labels (a type per board, one binary)
+                res.count("parallel_firmware_with_the_same_bytes")
             eng.call("fw", 77, oft, ofv, oimg)
             eng.feed(f"77;255;4;0;0;{le(oft, ofv, 5, 0x1111, 0x0101)}")
             other = (77, oft, ofv, oimg)
@@ -244,6 +247,10 @@ def serve_case(res, rng, length, tmp):
                 want = opad[16 * oi:16 * oi + 16]
                 if len(og) != 1 or og[0].rstrip("\n").split(";")[5][12:].lower() != want.hex():
                     res.violation("parallel-firmware-block-wrong", f"node {on} fetching firmware ({oft},{ofv}) block {oi} got {og!r}", case)
+                    return
+                if words(og[0].rstrip("\n").split(";")[5][:12], 3) != (oft, ofv, oi):
+                    res.violation("parallel-firmware-block-echo", f"node {on} asked for block {oi} of firmware ({oft},{ofv}); the response echoes "
+                                  f"{words(og[0].rstrip(chr(10)).split(';')[5][:12], 3)}", case)
                     return
             if other is not None and rng.random() < 0.2:
                 # a node updating to (ft, fv) asks for a block of the other loaded firmware (late or retransmitted request
